@@ -165,6 +165,16 @@ func c12Pair(a, b [2]float32) (kind, msg string, werr, merr float64) {
 			}
 		}
 	}
+	// ... and with a luminance other than 1 (Y scales X and Z alike)
+	for _, yy := range []float32{0.18, 0.5, 2.5} {
+		g := xyzVec(ciexyz.ColorFromXYY(ciexyy.Color{X: a[0], Y: a[1], YY: yy}))
+		ref := refcolor.XYYToXYZ(float64(a[0]), float64(a[1]), float64(yy))
+		for i := 0; i < 3; i++ {
+			if !(math.Abs(g[i]-ref[i]) <= 1e-6*math.Max(1, math.Abs(ref[i]))) {
+				return "xyy-to-xyz", fmt.Sprintf("ColorFromXYY(%v with Y=%v) = %v, definition gives %v", a, yy, g, ref), 0, 0
+			}
+		}
+	}
 	caZ := ciexyz.AdaptBetweenXYZWhitePoints(aX, bX)
 	m, mz := libMat(matrix.Matrix3(caV)), libMat(matrix.Matrix3(caZ))
 	if d := m.MaxAbsDiff(mz); !(d <= 1e-9*math.Max(1, m.NormInf())) {
